@@ -597,12 +597,17 @@ class ClientSession:
             for trace_config in self._trace_configs
         ]
 
-        for trace in traces:
-            await trace.send_request_start(method, url.update_query(params), headers)
-
+        # The timer exists before anything can suspend: a deadline that passes
+        # during a tracing callback must not be lost.
         timer = tm.timer()
         req: ClientRequest | None = None
+        resp: ClientResponse | None = None
         try:
+            for trace in traces:
+                await trace.send_request_start(
+                    method, url.update_query(params), headers
+                )
+
             with timer:
                 # https://www.rfc-editor.org/rfc/rfc9112.html#name-retrying-requests
                 retry_persistent_connection = (
@@ -898,6 +903,10 @@ class ClientSession:
 
             if req is not None and req._body is not None:
                 await req._body.close()
+
+            if resp is not None:
+                # The caller never gets it: do not leave its connection open
+                resp.close()
 
             for trace in traces:
                 await trace.send_request_exception(
